@@ -832,6 +832,12 @@ func (c *Ctx) backEdge(from *ssa.BasicBlock, h *ssa.BasicBlock, st *State, li *l
 		// in an iteration clause old(e) is e at the beginning of the iteration just finished
 		// (the loop-head state), for variables that live in a local cell
 		env := c.baseEnv(st, li.st)
+		// loop variables (phis of the head): their plain names mean the values the iteration
+		// hands to the next one, old(name) the values it started with
+		c.bindLoopNames(env, h, st, predIdx, st)
+		oldEnv := &Env{c: c, names: map[string]*Val{}}
+		c.bindLoopNames(oldEnv, h, nil, -1, st)
+		env.oldNames = oldEnv.names
 		label := cl.Label
 		if label == "" {
 			label = fmt.Sprint(i + 1)
